@@ -42,15 +42,36 @@ Proof.
   destruct (H w o Hi) as [Hp Hi']. split; [exact Hp|apply IH, Hi'].
 Qed.
 
-(* ------------------------------------------------------------------ fresh reads never crash *)
+(* ------------------------------------------------------------------ live maps and their backing *)
 Lemma fresh_read_no_crash g fs p d k : fresh_read g fs p d k <> RCrash.
 Proof.
   unfold fresh_read. destruct (nth (fid g p) fs None) as [c|]; [|discriminate].
   destruct (dtype_eqb (k_dt c) d); [destruct (is_int d && negb (Nat.eqb (k_scl c) k)); discriminate|].
   destruct (_ <=? _); discriminate.
 Qed.
-Lemma denote_no_crash g fs im : denote g fs im <> RCrash.
-Proof. unfold denote. destruct (i_src im); [discriminate|apply fresh_read_no_crash]. Qed.
+
+(* an array image built around a memory map reads through that map: it must still be backed by its file *)
+Definition src_backed (g : cfg) (fs : list (option content)) (im : image) : Prop :=
+  match i_src im with SMap p d _ => alias_read g fs p d <> RCrash | _ => True end.
+
+Lemma denote_no_crash g fs im : src_backed g fs im -> denote g fs im <> RCrash.
+Proof.
+  unfold denote, src_backed. destruct (i_src im); [discriminate|intros _; apply fresh_read_no_crash|auto].
+Qed.
+
+(* every live memory map - a cached get_fdata result, or the array an image was built around - still has its
+   file under it *)
+Definition backed (g : cfg) (w : world) : Prop :=
+  forall s im, img_at w s = Some im ->
+    src_backed g (w_fs w) im
+    /\ (forall p d, i_cache im = CAlias p d -> alias_read g (w_fs w) p d <> RCrash).
+
+(* the defect S-C09d: the saver's array is a map of the target that unmap_if_target does not recognise *)
+Definition risky (g : cfg) (w : world) (s t : nat) : bool :=
+  match img_at w s with
+  | Some im => match mapped g im with Some p => Nat.eqb (fid g p) (fid g t) | None => false end && negb (recognised im)
+  | None => false
+  end.
 
 (* ------------------------------------------------------------------ (1) a save never crashes *)
 Definition is_write (o : op) : bool :=
@@ -79,8 +100,48 @@ Proof.
   apply nth_upd_same. eapply img_at_lt; eauto.
 Qed.
 
-(* inversion of a save (with the fix): refused with nothing changed, or one file replaced *)
-Lemma do_save_cases g w s t hd : g_fix g = true ->
+Lemma src_with_hdt im hd : i_src (with_hdt im hd) = i_src im.
+Proof. destruct hd; reflexivity. Qed.
+Lemma denote_reshaped_map g fs im tf p d c : i_src im = SMap p d c -> denote g fs (reshaped g im tf) = denote g fs im.
+Proof. intros E. unfold reshaped. destruct (_ && _ && _ && _); [|reflexivity]. rewrite E. reflexivity. Qed.
+
+Lemma src_backed_reshaped g fs im tf : src_backed g fs im -> src_backed g fs (reshaped g im tf).
+Proof.
+  intros H. unfold reshaped. destruct (_ && _ && _ && _); [|exact H].
+  unfold src_backed in *. destruct (i_src im) eqn:E; cbn [i_src]; try rewrite E; auto.
+Qed.
+Lemma src_backed_with_hdt g fs im hd : src_backed g fs im -> src_backed g fs (with_hdt im hd).
+Proof. unfold src_backed. now rewrite src_with_hdt. Qed.
+
+(* what any save can do to the world: nothing, kill the process, or replace one file (and maybe re-point the saver) *)
+Lemma do_save_shape g w s t hd :
+  fst (do_save g w s t hd) = w \/ fst (do_save g w s t hd) = kill w
+  \/ exists im0 c imgs', img_at w s = Some im0 /\ (fid g t < length (w_fs w))%nat /\ k_cls c = tfmt g im0 t
+       /\ (imgs' = w_imgs w \/ exists v, imgs' = upd s (Some (repointed im0 v)) (w_imgs w))
+       /\ fst (do_save g w s t hd) = mkW (upd (fid g t) (Some c) (w_fs w)) imgs' (w_dead w).
+Proof.
+  unfold do_save. destruct (img_at w s) as [im0|] eqn:Hi; [|left; reflexivity].
+  destruct (fid g t <? length (w_fs w))%nat eqn:Hlt; cbn [negb]; [|left; reflexivity]. apply Nat.ltb_lt in Hlt.
+  fold (with_hdt im0 hd).
+  destruct (out_dtype g (with_hdt im0 hd) (tfmt g im0 t)) as [od|]; [|left; reflexivity].
+  destruct (denote g (w_fs w) (reshaped g (with_hdt im0 hd) (tfmt g im0 t))) as [v| |];
+    [|left; reflexivity|right; left; reflexivity].
+  destruct (writer_refuses g (tfmt g im0 t) od); [left; reflexivity|].
+  destruct (_ && negb (g_fix g && recognised (with_hdt im0 hd))).
+  - destruct (_ <? _); [right; left; reflexivity|].
+    right; right. exists im0, (mkK None od (i_aff (with_hdt im0 hd)) 0%nat (tfmt g im0 t)), (w_imgs w).
+    repeat split; auto.
+  - right; right. exists im0, (written g (tfmt g im0 t) od v (i_aff (with_hdt im0 hd))),
+      (if repoints g im0 (tfmt g im0 t) t then upd s (Some (repointed im0 v)) (w_imgs w) else w_imgs w).
+    split; [reflexivity|]. split; [exact Hlt|]. split.
+    + unfold written. destruct (is_int od); [destruct (fmt_eqb _ Mgh); [|destruct v]|]; reflexivity.
+    + split; [|reflexivity]. destruct (repoints _ _ _ _); [right; eauto|left; reflexivity].
+Qed.
+
+(* inversion of a save that is not the S-C09d case and whose saver's own map (if any) is backed: refused with
+   nothing changed, or one file replaced *)
+Lemma do_save_cases g w s t hd : g_fix g = true -> risky g w s t = false ->
+  (forall im, img_at w s = Some im -> src_backed g (w_fs w) im) ->
   (exists e, do_save g w s t hd = (w, ORefused e))
   \/ (exists im0 od v,
         img_at w s = Some im0 /\ (fid g t < length (w_fs w))%nat
@@ -94,15 +155,22 @@ Lemma do_save_cases g w s t hd : g_fix g = true ->
             OSaved t (k_val (written g (tfmt g im0 t) od v (i_aff im0))) od (i_aff im0)
                    (k_scl (written g (tfmt g im0 t) od v (i_aff im0))))).
 Proof.
-  intros Hf. unfold do_save. destruct (img_at w s) as [im0|] eqn:Hi; [|left; eauto].
+  intros Hf Hrk Hb. unfold do_save. destruct (img_at w s) as [im0|] eqn:Hi; [|left; eauto].
   destruct (fid g t <? length (w_fs w))%nat eqn:Hlt; cbn [negb]; [|left; eauto]. apply Nat.ltb_lt in Hlt.
   fold (with_hdt im0 hd).
   destruct (out_dtype g (with_hdt im0 hd) (tfmt g im0 t)) as [od|] eqn:Ho; [|left; eauto].
-  pose proof (denote_no_crash g (w_fs w) (reshaped g (with_hdt im0 hd) (tfmt g im0 t))) as Hn.
+  assert (Hn : denote g (w_fs w) (reshaped g (with_hdt im0 hd) (tfmt g im0 t)) <> RCrash).
+  { apply denote_no_crash, src_backed_reshaped, src_backed_with_hdt, Hb. reflexivity. }
   destruct (denote g (w_fs w) (reshaped g (with_hdt im0 hd) (tfmt g im0 t))) as [v| |] eqn:Hd;
     [|left; eauto|congruence].
   destruct (writer_refuses g (tfmt g im0 t) od) eqn:Hw; [left; eauto|].
-  rewrite Hf, andb_false_r. right. exists im0, od, v.
+  unfold risky in Hrk. rewrite Hi in Hrk.
+  assert (Hm : mapped g (with_hdt im0 hd) = mapped g im0) by (unfold mapped; now rewrite src_with_hdt).
+  assert (Hrec : recognised (with_hdt im0 hd) = recognised im0) by (unfold recognised; now rewrite src_with_hdt).
+  rewrite Hm, Hrec, Hf. cbn [andb].
+  replace (match mapped g im0 with Some p => Nat.eqb (fid g p) (fid g t) | None => false end && negb (recognised im0))
+    with false.
+  right. exists im0, od, v.
   assert (Ha : i_aff (with_hdt im0 hd) = i_aff im0) by (destruct hd; reflexivity). rewrite Ha.
   repeat split; assumption.
 Qed.
@@ -113,6 +181,8 @@ Definition save_op (o : op) : option (nat * nat * option dtype) :=
   | SaveU8 s t => Some (s, t, Some U1)
   | _ => None
   end.
+Definition risky_op (g : cfg) (w : world) (o : op) : bool :=
+  match save_op o with Some (s, t, _) => risky g w s t | None => false end.
 
 (* a save operation is do_save, or (to_filename with a name of another class) a refusal that changes nothing *)
 Lemma step_save g w o s t hd : w_dead w = false -> save_op o = Some (s, t, hd) ->
@@ -123,31 +193,56 @@ Proof.
   destruct (fmt_eqb (i_fmt im) (tfmt g im t)); [left; reflexivity|right; eauto].
 Qed.
 
-Lemma save_step_no_crash g w o : g_fix g = true -> is_write o = true -> snd (step g w o) <> OCrash.
+(* from a world whose maps are all backed, no operation other than an S-C09d save crashes *)
+Lemma backed_step_no_crash g w o : g_fix g = true -> backed g w -> risky_op g w o = false -> snd (step g w o) <> OCrash.
 Proof.
-  intros Hf Ho. destruct (w_dead w) eqn:Hdead; [unfold step; rewrite Hdead; discriminate|].
-  assert (SV : forall s t hd, snd (do_save g w s t hd) <> OCrash).
-  { intros s t hd. destruct (do_save_cases g w s t hd Hf) as [[e E]|(im0 & od & v & _ & _ & _ & _ & _ & E)];
+  intros Hf B Hrk. destruct (w_dead w) eqn:Hdead; [unfold step; rewrite Hdead; discriminate|].
+  assert (SB : forall s im, img_at w s = Some im -> src_backed g (w_fs w) im) by (intros s im H; apply (B s im H)).
+  assert (DN : forall s im, img_at w s = Some im -> denote g (w_fs w) im <> RCrash)
+    by (intros s im H; apply denote_no_crash; eauto).
+  assert (SV : forall s t hd, risky g w s t = false -> snd (do_save g w s t hd) <> OCrash).
+  { intros s t hd Hr. destruct (do_save_cases g w s t hd Hf Hr (SB s)) as [[e E]|(im0 & od & v & _ & _ & _ & _ & _ & E)];
       rewrite E; discriminate. }
-  destruct o; try discriminate.
-  - destruct (step_save g w (Save s p) s p None Hdead eq_refl) as [E|[e E]]; rewrite E; [apply SV|discriminate].
-  - destruct (step_save g w (SaveU8 s p) s p (Some U1) Hdead eq_refl) as [E|[e E]]; rewrite E; [apply SV|discriminate].
-  - destruct (step_save g w (ToFilename s p) s p None Hdead eq_refl) as [E|[e E]]; rewrite E; [apply SV|discriminate].
-  - (* SaveFull *)
-    unfold step. rewrite Hdead. destruct (img_at w s) as [im|]; [|discriminate].
-    pose proof (denote_no_crash g (w_fs w) im) as Hn.
-    destruct (denote g (w_fs w) im); try discriminate; congruence.
-  - (* ToBytes *)
-    unfold step. rewrite Hdead. unfold do_tobytes. destruct (img_at w s) as [im|]; [|discriminate].
-    pose proof (denote_no_crash g (w_fs w) im) as Hn.
-    destruct (i_fmt im); try discriminate; destruct (denote g (w_fs w) im); try discriminate; congruence.
+  assert (FD : forall s, snd (do_fdata g w s) <> OCrash).
+  { intros s. unfold do_fdata. destruct (img_at w s) as [im|] eqn:Hi; [|discriminate].
+    destruct (i_cache im) as [|v|p d] eqn:Hc.
+    - pose proof (DN s im Hi). destruct (denote g (w_fs w) im); try discriminate; congruence.
+    - discriminate.
+    - pose proof (proj2 (B s im Hi) p d Hc). destruct (alias_read g (w_fs w) p d); try discriminate; congruence. }
+  destruct o.
+  - unfold step. rewrite Hdead. unfold do_load. destruct (file_at w (fid g p)); [|discriminate]. destruct (_ <? _)%nat; discriminate.
+  - unfold step. rewrite Hdead. apply FD.
+  - unfold step. rewrite Hdead. destruct (img_at w s); discriminate.
+  - unfold step. rewrite Hdead. destruct (img_at w s); discriminate.
+  - unfold step. rewrite Hdead. destruct (img_at w s); discriminate.
+  - unfold step. rewrite Hdead. destruct (img_at w s); discriminate.
+  - destruct (step_save g w (Save s p) s p None Hdead eq_refl) as [E|[e E]]; rewrite E; [now apply SV|discriminate].
+  - destruct (step_save g w (SaveU8 s p) s p (Some U1) Hdead eq_refl) as [E|[e E]]; rewrite E; [now apply SV|discriminate].
+  - destruct (step_save g w (ToFilename s p) s p None Hdead eq_refl) as [E|[e E]]; rewrite E; [now apply SV|discriminate].
+  - unfold step. rewrite Hdead. destruct (img_at w s) as [im|]; [|discriminate]. destruct (_ <? _)%nat; discriminate.
+  - (* Wrap *)
+    unfold step. rewrite Hdead. unfold do_wrap. destruct (img_at w s) as [im|] eqn:Hi; [|discriminate].
+    destruct (negb (s2 <? length (w_imgs w))%nat); [discriminate|].
+    destruct how.
+    + pose proof (DN s im Hi). destruct (denote g (w_fs w) im); try discriminate; congruence.
+    + pose proof (FD s) as Hfd. destruct (do_fdata g w s) as [w1 x]. cbn [snd] in Hfd.
+      destruct x; try discriminate; congruence.
+    + pose proof (DN s im Hi). destruct (denote g (w_fs w) im); try discriminate; congruence.
+  - unfold step. rewrite Hdead. destruct (img_at w s) as [im|] eqn:Hi; [|discriminate]. destruct (i_src im) eqn:Es; try discriminate.
+    pose proof (DN s im Hi). destruct (denote g (w_fs w) im); try discriminate; congruence.
+  - unfold step. rewrite Hdead. destruct (img_at w s) as [im|] eqn:Hi; [|discriminate].
+    pose proof (DN s im Hi). destruct (denote g (w_fs w) im); try discriminate; congruence.
+  - unfold step. rewrite Hdead. unfold do_tobytes. destruct (img_at w s) as [im|] eqn:Hi; [|discriminate].
+    pose proof (DN s im Hi). destruct (i_fmt im); try discriminate; destruct (denote g (w_fs w) im); try discriminate; congruence.
 Qed.
 
+(* "every save completes without crashing": a save / to_bytes step crashes only if a map the saver reads through
+   had already lost its file (S-C09b) or the saver's array is an unrecognised view of a map of the target (S-C09d) *)
 Lemma save_never_crashes g ops w : g_fix g = true ->
-  r_all (fun w o w' x => is_write o = true -> x <> OCrash) g w ops.
+  r_all (fun w o w' x => is_write o = true -> backed g w -> risky_op g w o = false -> x <> OCrash) g w ops.
 Proof.
   intros Hf. apply (r_all_lift (fun _ => True)); [|exact I].
-  intros w0 o _. split; [|exact I]. intros Ho. now apply save_step_no_crash.
+  intros w0 o _. split; [|exact I]. intros _ B Hr. now apply backed_step_no_crash.
 Qed.
 
 (* ------------------------------------------------------------------ (2) every file written decodes to what the image held *)
@@ -168,6 +263,7 @@ Proof. unfold written. destruct (is_int d); [destruct (fmt_eqb tf Mgh); [|destru
 
 Definition decodes (g : cfg) (w : world) (o : op) (w' : world) (x : out) : Prop :=
   forall s t hd v d a k, save_op o = Some (s, t, hd) -> x = OSaved t v d a k ->
+    backed g w -> risky g w s t = false ->
     exists im0 v0, img_at w s = Some im0
       (* the data the image had at that save (read through the class conversion) *)
       /\ denote g (w_fs w) (reshaped g (with_hdt im0 hd) (tfmt g im0 t)) = RVal v0
@@ -183,10 +279,11 @@ Definition decodes (g : cfg) (w : world) (o : op) (w' : world) (x : out) : Prop 
 
 Lemma decodes_step g w o : g_fix g = true -> decodes g w o (fst (step g w o)) (snd (step g w o)).
 Proof.
-  intros Hf s t hd v d a k Hs Hx.
+  intros Hf s t hd v d a k Hs Hx B Hrk.
   destruct (w_dead w) eqn:Hdead; [unfold step in Hx; rewrite Hdead in Hx; discriminate|].
   destruct (step_save g w o s t hd Hdead Hs) as [E0|[e E0]]; rewrite E0 in *; [|discriminate].
-  destruct (do_save_cases g w s t hd Hf) as [[e E]|(im0 & od & v0 & Hi & Hlt & Ho & Hd & Hw & E)];
+  assert (SB : forall im, img_at w s = Some im -> src_backed g (w_fs w) im) by (intros im H; apply (B s im H)).
+  destruct (do_save_cases g w s t hd Hf Hrk SB) as [[e E]|(im0 & od & v0 & Hi & Hlt & Ho & Hd & Hw & E)];
     rewrite E in *; cbn [fst snd] in *; [discriminate|].
   inversion Hx; subst. exists im0, v0.
   split; [exact Hi|]. split; [exact Hd|]. split; [exact Ho|]. split; [reflexivity|].
@@ -232,8 +329,17 @@ Definition classes_ok (g : cfg) (w : world) : Prop :=
                          g_tclass g (i_fmt im) (pi_fmt (pinfo_of g p)) = i_fmt im)
   /\ (forall p c, file_at w (fid g p) = Some c -> g_tclass g (k_cls c) (pi_fmt (pinfo_of g p)) = k_cls c).
 
+(* the saver's own array is a memory map of the target file (an image built around such a map): what it
+   holds afterwards is whatever the file holds - S-C09b's domain, excluded here *)
+Definition own_array_maps (g : cfg) (w : world) (s t : nat) : bool :=
+  match img_at w s with
+  | Some im => match i_src im with SMap p _ _ => Nat.eqb (fid g p) (fid g t) | _ => false end
+  | None => false
+  end.
+
 Definition usable (g : cfg) (w : world) (o : op) (w' : world) (x : out) : Prop :=
   forall s t hd v d a k, save_op o = Some (s, t, hd) -> x = OSaved t v d a k ->
+    backed g w -> own_array_maps g w s t = false ->
     ~ (g_mixed g = true /\ d = U1) ->
     exists im', img_at w' s = Some im' /\ denote g (w_fs w') im' = RVal v.
 
@@ -244,61 +350,81 @@ Lemma usable_step g w o :
   g_fix g = true -> g_reshape_ok g = true -> g_repoint g = true -> names_wf g -> classes_ok g w ->
   usable g w o (fst (step g w o)) (snd (step g w o)).
 Proof.
-  intros Hf Hr Hp [Hn _] [Hc _] s t hd v d a k Hs Hx Hclip.
-  destruct (decodes_step g w o Hf s t hd v d a k Hs Hx)
+  intros Hf Hr Hp [Hn _] [Hc _] s t hd v d a k Hs Hx B Hown Hclip.
+  assert (Hrk : risky g w s t = false).
+  { unfold risky, own_array_maps in *. destruct (img_at w s) as [im|]; [|reflexivity].
+    unfold mapped, recognised. destruct (i_src im) as [|p0 d0 k0 mm|p0 d0 c0]; cbn.
+    - reflexivity.
+    - now rewrite andb_false_r.
+    - now rewrite Hown. }
+  destruct (decodes_step g w o Hf s t hd v d a k Hs Hx B Hrk)
     as (im0 & v0 & Hi & Hd & Ho & Ha & Hft & Hv & Hk & Hoth & _ & Hslot).
   set (c := written g (tfmt g im0 t) d v0 a) in *.
-  assert (Hv0 : v = v0) by (rewrite Hv; apply written_val; intros (A & B & _); apply Hclip; auto).
-  (* the data read before the save: the class conversion does not change what the proxy is *)
+  assert (Hv0 : v = v0) by (rewrite Hv; apply written_val; intros (A & B0 & _); apply Hclip; auto).
+  (* the data read before the save: the class conversion does not change what the image is *)
   assert (Hd0 : denote g (w_fs w) im0 = RVal v0).
   { unfold reshaped in Hd. rewrite Hr in Hd. cbn [negb] in Hd. rewrite andb_false_r in Hd.
-    unfold denote in *. destruct hd; exact Hd. }
+    unfold denote in *. rewrite src_with_hdt in Hd. exact Hd. }
   destruct (repoints g im0 (tfmt g im0 t) t) eqn:Er.
   - exists (repointed im0 v0). split; [exact Hslot|]. rewrite Hv0. reflexivity.
   - exists im0. split; [exact Hslot|]. rewrite Hv0.
-    unfold denote in *. destruct (i_src im0) as [vv|p ds ks mm] eqn:Es; [exact Hd0|].
-    unfold fresh_read in *. destruct (Nat.eq_dec (fid g p) (fid g t)) as [He|Hne].
-    + (* a proxy of the target file is always re-pointed *)
-      exfalso. unfold repoints, tfmt in Er. rewrite Hp, Es, He, Nat.eqb_refl in Er.
-      rewrite <- (Hn p t He), (Hc s im0 p ds ks mm Hi Es), fmt_eqb_refl in Er. discriminate.
-    + specialize (Hoth (fid g p) Hne). unfold file_at in Hoth. rewrite Hoth. exact Hd0.
+    unfold denote in *. destruct (i_src im0) as [vv|p ds ks mm|p ds cv] eqn:Es; [exact Hd0| |].
+    + unfold fresh_read in *. destruct (Nat.eq_dec (fid g p) (fid g t)) as [He|Hne].
+      * (* a proxy of the target file is always re-pointed *)
+        exfalso. unfold repoints, tfmt in Er. rewrite Hp, Es, He, Nat.eqb_refl in Er.
+        rewrite <- (Hn p t He), (Hc s im0 p ds ks mm Hi Es), fmt_eqb_refl in Er. discriminate.
+      * specialize (Hoth (fid g p) Hne). unfold file_at in Hoth. rewrite Hoth. exact Hd0.
+    + (* an array that maps another file: that file is untouched *)
+      unfold own_array_maps in Hown. rewrite Hi, Es in Hown. apply Nat.eqb_neq in Hown.
+      unfold alias_read in *. specialize (Hoth (fid g p) Hown). unfold file_at in Hoth. rewrite Hoth. exact Hd0.
 Qed.
 
-Lemma classes_ok_step g w o : g_fix g = true -> names_wf g -> classes_ok g w -> classes_ok g (fst (step g w o)).
+Lemma classes_ok_step g w o : names_wf g -> classes_ok g w -> classes_ok g (fst (step g w o)).
 Proof.
-  intros Hf [Hn Hidem] Hc. unfold step. destruct (w_dead w) eqn:Hdead; [exact Hc|].
+  intros [Hn Hidem] Hc. unfold step. destruct (w_dead w) eqn:Hdead; [exact Hc|].
   destruct Hc as [Hc Hfs].
   (* operations that leave the files alone and set one image slot *)
+  assert (SETW : forall w1 s im, w_fs w1 = w_fs w -> w_imgs w1 = w_imgs w ->
+                   (forall p d k mm, i_src im = SProxy p d k mm -> g_tclass g (i_fmt im) (pi_fmt (pinfo_of g p)) = i_fmt im) ->
+                   classes_ok g (set_img w1 s im)).
+  { intros w1 s im E1 E2 H. split.
+    - intros s' im' p d k mm Hi Hs. rewrite img_at_set in Hi. unfold img_at in Hi. rewrite E2 in Hi. destruct (Nat.eqb s' s).
+      + destruct (s <? length (w_imgs w))%nat; [|discriminate]. inversion Hi; subst. eapply H; eauto.
+      + eapply Hc; eauto.
+    - intros p c Hp. unfold file_at, set_img in Hp; cbn [w_fs] in Hp. rewrite E1 in Hp. now apply Hfs. }
   assert (SET : forall s im, (forall p d k mm, i_src im = SProxy p d k mm ->
                                 g_tclass g (i_fmt im) (pi_fmt (pinfo_of g p)) = i_fmt im) ->
-                             classes_ok g (set_img w s im)).
-  { intros s im H. split; [|exact Hfs]. intros s' im' p d k mm Hi Hs. rewrite img_at_set in Hi. destruct (Nat.eqb s' s).
-    - destruct (s <? length (w_imgs w))%nat; [|discriminate]. inversion Hi; subst. eapply H; eauto.
-    - eapply Hc; eauto. }
+                             classes_ok g (set_img w s im)) by (intros; now apply SETW).
   assert (SAME : classes_ok g w) by (split; assumption).
   assert (SV : forall s t hd, classes_ok g (fst (do_save g w s t hd))).
   { intros s t hd.
-    destruct (do_save_cases g w s t hd Hf) as [[e E]|(im0 & od & v & Hi & Hlt & Ho & Hd & Hw & E)];
-      rewrite E; cbn [fst]; [exact SAME|]. split.
+    destruct (do_save_shape g w s t hd) as [E|[E|(im0 & c & imgs' & Hi & Hlt & Hk & Himgs & E)]]; rewrite E;
+      [exact SAME|exact SAME|]. split.
     - intros s' im' p d k mm Hi' Hs'. unfold img_at in Hi'; cbn [w_imgs] in Hi'.
-      destruct (repoints g im0 (tfmt g im0 t) t); [|eapply Hc; eauto].
+      destruct Himgs as [->|[v ->]]; [eapply Hc; eauto|].
       destruct (Nat.eq_dec s' s) as [->|Hne].
       + rewrite nth_upd_same in Hi' by (eapply img_at_lt; eauto). inversion Hi'; subst. discriminate.
       + rewrite nth_upd_other in Hi' by exact Hne. eapply Hc; eauto.
-    - intros p c Hp. unfold file_at in Hp; cbn [w_fs] in Hp.
+    - intros p c' Hp. unfold file_at in Hp; cbn [w_fs] in Hp.
       destruct (Nat.eq_dec (fid g p) (fid g t)) as [He|Hne].
-      + rewrite He, nth_upd_same in Hp by exact Hlt. inversion Hp; subst c.
-        assert (Hk : k_cls (written g (tfmt g im0 t) od v (i_aff im0)) = tfmt g im0 t).
-        { unfold written. destruct (is_int od); [destruct (fmt_eqb _ Mgh); [|destruct v]|]; reflexivity. }
+      + rewrite He, nth_upd_same in Hp by exact Hlt. inversion Hp; subst c'.
         rewrite Hk. unfold tfmt. rewrite (Hn p t He). apply Hidem.
       + rewrite nth_upd_other in Hp by exact Hne. now apply Hfs. }
+  assert (FD : forall s, classes_ok g (fst (do_fdata g w s))
+                         /\ w_fs (fst (do_fdata g w s)) = w_fs w
+                         /\ (forall s', s' <> s -> img_at (fst (do_fdata g w s)) s' = img_at w s')
+                         /\ length (w_imgs (fst (do_fdata g w s))) = length (w_imgs w)).
+  { intros s. unfold do_fdata. destruct (img_at w s) as [im|] eqn:Hi; [|repeat split; auto].
+    destruct (i_cache im) as [|cv|cp cd]; [| repeat split; auto |destruct (alias_read g (w_fs w) cp cd); repeat split; auto].
+    destruct (denote g (w_fs w) im) as [v| |]; [|repeat split; auto|repeat split; auto]. cbn [fst].
+    split; [apply SET; intros p d k mm E; exact (Hc s im p d k mm Hi E)|]. split; [reflexivity|]. split.
+    - intros s' Hne. rewrite img_at_set. apply Nat.eqb_neq in Hne. now rewrite Hne.
+    - unfold set_img; cbn [w_imgs]. apply upd_length. }
   destruct o; try apply SV.
   - unfold do_load. destruct (file_at w (fid g p)) as [c|] eqn:Hfa; [|exact SAME].
     destruct (s <? length (w_imgs w))%nat; [|exact SAME]. cbn [fst]. apply SET.
     intros p0 d0 k0 mm0 E. inversion E; subst. cbn [i_fmt]. now apply Hfs.
-  - unfold do_fdata. destruct (img_at w s) as [im|] eqn:Hi; [|exact SAME].
-    destruct (i_cache im) as [|cv|cp cd]; [| exact SAME |destruct (alias_read g (w_fs w) cp cd); exact SAME].
-    destruct (denote g (w_fs w) im) as [v| |]; [|exact SAME|exact SAME]. cbn [fst]. apply SET. intros p d k mm E. exact (Hc s im p d k mm Hi E).
+  - apply FD.
   - destruct (img_at w s) as [im|] eqn:Hi; [|exact SAME]. cbn [fst]. apply SET. intros p d k mm E. exact (Hc s im p d k mm Hi E).
   - destruct (img_at w s); exact SAME.
   - destruct (img_at w s) as [im|] eqn:Hi; [|exact SAME]. cbn [fst]. apply SET. intros p d k mm E. exact (Hc s im p d k mm Hi E).
@@ -308,8 +434,26 @@ Proof.
   - (* Clone *)
     destruct (img_at w s) as [im|] eqn:Hi; [|exact SAME]. destruct (s2 <? length (w_imgs w))%nat; [|exact SAME].
     cbn [fst]. apply SET. intros p d k mm E. exact (Hc s im p d k mm Hi E).
+  - (* Wrap: the new image is an array image, never a proxy *)
+    unfold do_wrap. destruct (img_at w s) as [im|] eqn:Hi; [|exact SAME].
+    destruct (negb (s2 <? length (w_imgs w))%nat); [exact SAME|].
+    assert (NP : forall v p d k mm, wrapped_src g im how v <> SProxy p d k mm).
+    { intros v p d k mm. unfold wrapped_src. destruct (i_src im) as [|p0 d0 k0 mm0|p0 d0 c0].
+      - discriminate.
+      - destruct (_ && _ && _); [|discriminate]. destruct how; try discriminate. destruct (aliasable g im); discriminate.
+      - destruct how; try discriminate. destruct (aliasable g im); discriminate. }
+    destruct how.
+    + destruct (denote g (w_fs w) im); try exact SAME. cbn [fst]. apply SET. intros p d k mm E. cbn [i_src] in E. now apply NP in E.
+    + destruct (FD s) as (C1 & F1 & I1 & L1). destruct (do_fdata g w s) as [w1 x]. cbn [fst] in *.
+      destruct x; cbn [fst]; try exact C1; try exact SAME.
+      destruct C1 as [C1a C1b]. split.
+      * intros s' im' p d k mm Hi' Hs'. rewrite img_at_set in Hi'. destruct (Nat.eqb s' s2).
+        -- destruct (s2 <? length (w_imgs w1))%nat; [|discriminate]. inversion Hi'; subst. cbn [i_src] in Hs'. now apply NP in Hs'.
+        -- eapply C1a; eauto.
+      * intros p c Hp. unfold file_at, set_img in Hp; cbn [w_fs] in Hp. now apply C1b.
+    + destruct (denote g (w_fs w) im); try exact SAME. cbn [fst]. apply SET. intros p d k mm E. cbn [i_src] in E. now apply NP in E.
   - (* EditMap *)
-    destruct (img_at w s) as [im|]; [|exact SAME]. destruct (i_src im); [exact SAME|].
+    destruct (img_at w s) as [im|]; [|exact SAME]. destruct (i_src im); try exact SAME.
     destruct (denote g (w_fs w) im); exact SAME.
   - destruct (img_at w s) as [im|]; [|exact SAME]. destruct (denote g (w_fs w) im); exact SAME.
   - unfold do_tobytes. destruct (img_at w s) as [im|]; [|exact SAME].
@@ -338,198 +482,40 @@ Lemma platform_names_wf n paths fids fx sc mx ld :
   names_wf (platform_cfg n paths fids fx sc mx ld).
 Proof. intros H. split; [exact H|]. intros x m. destruct x, m; reflexivity. Qed.
 
-(* ------------------------------------------------------------------ (4) no crash when no save shortens a file under a live map *)
-Definition cfg_wf (g : cfg) : Prop := 0 < g_page g /\ (forall f, 0 <= g_foot g f).
-
-Lemma roundup_ge x page : 0 < page -> x <= roundup x page.
-Proof. intros H. unfold roundup. Z.to_euclidean_division_equations; nia. Qed.
-
-(* every live alias still has its file under it *)
-Definition backed (g : cfg) (w : world) : Prop :=
-  forall s im p d, img_at w s = Some im -> i_cache im = CAlias p d -> alias_read g (w_fs w) p d <> RCrash.
-
-(* does this save shorten file t under some image's cached map of t? *)
-Definition short_for (g : cfg) (t : nat) (od : dtype) (oi : option image) : bool :=
-  match oi with
-  | Some im => match i_cache im with
-               | CAlias p d => Nat.eqb (fid g p) (fid g t)
-                               && (roundup (flen g p (mkK None od 0%nat 0%nat Nii)) (g_page g) <? needed g p d)
-               | _ => false
-               end
-  | None => false
-  end.
-Definition hazard (g : cfg) (w : world) (o : op) : bool :=
-  match save_op o with
-  | Some (s, t, hd) =>
-    match img_at w s with
-    | Some im => match out_dtype g (with_hdt im hd) (tfmt g im t) with
-                 | Some od => existsb (short_for g t od) (w_imgs w)
-                 | None => false
-                 end
-    | None => false
-    end
-  | None => false
-  end.
-
-Fixpoint no_hazard (g : cfg) (w : world) (ops : list op) : Prop :=
-  match ops with
-  | [] => True
-  | o :: r => hazard g w o = false /\ no_hazard g (fst (step g w o)) r
-  end.
-
-Lemma backed_set_img g w s im :
-  backed g w ->
-  (forall p d, i_cache im = CAlias p d -> alias_read g (w_fs w) p d <> RCrash) ->
-  backed g (set_img w s im).
+(* a world of in-memory array images without caches (every initial world) has no live map at all *)
+Definition no_maps (w : world) : Prop :=
+  forall s im, img_at w s = Some im -> i_cache im = CNone /\ exists v, i_src im = SArray v.
+Lemma no_maps_backed g w : no_maps w -> backed g w.
 Proof.
-  intros B H s' im' p d Hi Hc. rewrite img_at_set in Hi. cbn [set_img w_fs].
-  destruct (Nat.eqb s' s).
-  - destruct (s <? length (w_imgs w))%nat; [|discriminate]. inversion Hi; subst. now apply H.
-  - eapply B; eauto.
+  intros H s im Hi. destruct (H s im Hi) as [Hc [v Hs]]. split.
+  - unfold src_backed. now rewrite Hs.
+  - intros p d E. rewrite Hc in E. discriminate.
 Qed.
 
-Lemma fresh_alias_backed g fs p d k v :
-  cfg_wf g -> fresh_read g fs p d k = RVal v -> alias_read g fs p d <> RCrash.
-Proof.
-  intros [Hp Hf] H. unfold fresh_read, alias_read in *. destruct (nth (fid g p) fs None) as [c|]; [|discriminate].
-  assert (Hle : needed g p d <= flen g p c).
-  { destruct (dtype_eqb (k_dt c) d) eqn:E.
-    - apply dtype_eqb_eq in E. subst. unfold flen. specialize (Hf (pi_fmt (pinfo_of g p))). lia.
-    - destruct (needed g p d <=? flen g p c) eqn:E2; [lia|discriminate]. }
-  pose proof (roundup_ge (flen g p c) (g_page g) Hp).
-  replace (roundup (flen g p c) (g_page g) <? needed g p d) with false by lia.
-  destruct (dtype_eqb (k_dt c) d); discriminate.
-Qed.
-
-Lemma step_backed g w o :
-  cfg_wf g -> g_fix g = true -> backed g w -> hazard g w o = false ->
-  snd (step g w o) <> OCrash /\ backed g (fst (step g w o)).
-Proof.
-  intros Wf Hf B Hz. unfold step. destruct (w_dead w) eqn:Hdead; [split; [discriminate|exact B]|].
-  assert (SV : forall s t hd,
-             match img_at w s with
-             | Some im => match out_dtype g (with_hdt im hd) (tfmt g im t) with
-                          | Some od => existsb (short_for g t od) (w_imgs w)
-                          | None => false
-                          end
-             | None => false
-             end = false ->
-             snd (do_save g w s t hd) <> OCrash /\ backed g (fst (do_save g w s t hd))).
-  { intros s t hd Hz'.
-    destruct (do_save_cases g w s t hd Hf) as [[e E]|(im0 & od & v & Hi & Hlt & Ho & Hd & Hw & E)];
-      rewrite E; cbn [fst snd]; [split; [discriminate|exact B]|]. split; [discriminate|].
-    rewrite Hi, Ho in Hz'.
-    set (c := written g (tfmt g im0 t) od v (i_aff im0)).
-    destruct (written_dt_aff g (tfmt g im0 t) od v (i_aff im0)) as [Hdt _]. fold c in Hdt.
-    intros s' im' p' d' Hi' Hc'. unfold img_at in Hi'; cbn [w_imgs w_fs] in *.
-    assert (Hi'' : nth s' (w_imgs w) None = Some im').
-    { destruct (repoints g im0 (tfmt g im0 t) t); [|exact Hi'].
-      destruct (Nat.eq_dec s' s) as [->|Hne'].
-      - rewrite nth_upd_same in Hi' by (eapply img_at_lt; eauto). inversion Hi'; subst im'. discriminate.
-      - now rewrite nth_upd_other in Hi' by exact Hne'. }
-    clear Hi'. rename Hi'' into Hi'.
-    pose proof (B s' im' p' d' Hi' Hc') as Hb.
-    unfold alias_read in *. destruct (Nat.eq_dec (fid g p') (fid g t)) as [He|Hne].
-    - rewrite He. rewrite nth_upd_same by exact Hlt.
-      assert (Hs : short_for g t od (Some im') = false).
-      { destruct (short_for g t od (Some im')) eqn:E'; [|reflexivity].
-        assert (existsb (short_for g t od) (w_imgs w) = true)
-          by (apply existsb_exists; exists (Some im'); split; [exact (img_at_in w s' im' Hi')|exact E']).
-        congruence. }
-      cbn [short_for] in Hs. rewrite Hc', He, Nat.eqb_refl in Hs. cbn [andb] in Hs.
-      unfold flen in *. cbn [k_dt] in *. rewrite Hdt, Hs. destruct (dtype_eqb od d'); discriminate.
-    - rewrite nth_upd_other by exact Hne. exact Hb. }
-  destruct o.
-  - (* Load *)
-    unfold do_load. destruct (file_at w (fid g p)); [|split; [discriminate|exact B]].
-    destruct (s <? length (w_imgs w))%nat; [|split; [discriminate|exact B]].
-    split; [discriminate|]. apply backed_set_img; [exact B|]. intros p0 d0 E; discriminate.
-  - (* Fdata *)
-    unfold do_fdata. destruct (img_at w s) as [im|] eqn:Hi; [|split; [discriminate|exact B]].
-    destruct (i_cache im) as [|v|p d] eqn:Hc.
-    + pose proof (denote_no_crash g (w_fs w) im) as Hn.
-      destruct (denote g (w_fs w) im) as [v| |] eqn:Hd; [|split; [discriminate|exact B]|congruence].
-      split; [discriminate|]. apply backed_set_img; [exact B|].
-      intros p d E. cbn [with_cache i_cache] in E.
-      destruct (aliasable g im) as [[p' d']|] eqn:Ea; [|discriminate]. inversion E; subst p' d'.
-      unfold aliasable in Ea. unfold denote in Hd. destruct (i_src im) as [|p0 d0 k0 mm]; [discriminate|].
-      destruct (_ && _ && _ && _); [|discriminate]. inversion Ea; subst. eapply fresh_alias_backed; eauto.
-    + split; [discriminate|exact B].
-    + pose proof (B s im p d Hi Hc) as Hb.
-      destruct (alias_read g (w_fs w) p d); [split; [discriminate|exact B]|split; [discriminate|exact B]|congruence].
-  - (* Uncache *)
-    destruct (img_at w s) as [im|]; [|split; [discriminate|exact B]].
-    split; [discriminate|]. apply backed_set_img; [exact B|]. intros p d E; discriminate.
-  - (* EditHdr *)
-    destruct (img_at w s); split; try discriminate; exact B.
-  - (* SetDtype *)
-    destruct (img_at w s) as [im|] eqn:Hi; [|split; [discriminate|exact B]].
-    split; [discriminate|]. apply backed_set_img; [exact B|]. intros p d E. cbn [i_cache] in E. eapply B; eauto.
-  - (* SetInt *)
-    destruct (img_at w s) as [im|] eqn:Hi; [|split; [discriminate|exact B]].
-    split; [discriminate|]. apply backed_set_img; [exact B|]. intros p d E. cbn [i_cache] in E. eapply B; eauto.
-  - (* Save *) apply (SV s p None). exact Hz.
-  - (* SaveU8 *) apply (SV s p (Some U1)). exact Hz.
-  - (* ToFilename *)
-    cbn [hazard save_op] in Hz. destruct (img_at w s) as [im|] eqn:Hi; [|split; [discriminate|exact B]].
-    destruct (fmt_eqb (i_fmt im) (tfmt g im p)); [|split; [discriminate|exact B]].
-    apply (SV s p None). rewrite Hi. exact Hz.
-  - (* Clone *)
-    destruct (img_at w s) as [im|] eqn:Hi; [|split; [discriminate|exact B]].
-    destruct (s2 <? length (w_imgs w))%nat; [|split; [discriminate|exact B]].
-    split; [discriminate|]. apply backed_set_img; [exact B|]. intros p d E; discriminate.
-  - (* EditMap *)
-    destruct (img_at w s) as [im|] eqn:Hi; [|split; [discriminate|exact B]].
-    destruct (i_src im); [split; [discriminate|exact B]|].
-    pose proof (denote_no_crash g (w_fs w) im) as Hn.
-    destruct (denote g (w_fs w) im); [split; [discriminate|exact B]|split; [discriminate|exact B]|congruence].
-  - (* SaveFull *)
-    pose proof (save_step_no_crash g w (SaveFull s) Hf eq_refl) as Hnc. unfold step in Hnc. rewrite Hdead in Hnc.
-    split; [exact Hnc|].
-    destruct (img_at w s) as [im|]; [|exact B].
-    destruct (denote g (w_fs w) im); exact B.
-  - (* ToBytes *)
-    pose proof (save_step_no_crash g w (ToBytes s) Hf eq_refl) as Hnc. unfold step in Hnc. rewrite Hdead in Hnc.
-    split; [exact Hnc|].
-    + unfold do_tobytes. destruct (img_at w s) as [im|]; [|exact B].
-      destruct (i_fmt im); try exact B; destruct (denote g (w_fs w) im); try exact B;
-        intros s' im' p' d' Hi' Hc'; cbn [kill w_fs w_imgs img_at] in *; eapply B; eauto.
-Qed.
-
-Lemma no_crash_partial g : cfg_wf g -> g_fix g = true ->
-  forall ops w, backed g w -> no_hazard g w ops -> ~ In OCrash (snd (run g w ops)).
-Proof.
-  intros Wf Hf. induction ops as [|o r IH]; intros w B Hn; [simpl; tauto|].
-  destruct Hn as [Hz Hr]. destruct (step_backed g w o Wf Hf B Hz) as [Hx B'].
-  rewrite run_cons. cbn [snd]. intros [E|E]; [congruence|]. exact (IH _ B' Hr E).
-Qed.
-
-(* a world without caches (every initial world) is backed *)
-Definition no_caches (w : world) : Prop := forall s im, img_at w s = Some im -> i_cache im = CNone.
-Lemma no_caches_backed g w : no_caches w -> backed g w.
-Proof. intros H s im p d Hi Hc. rewrite (H s im Hi) in Hc. discriminate. Qed.
-
-Lemma platform_wf n paths fids fx sc mx ld : cfg_wf (platform_cfg n paths fids fx sc mx ld).
-Proof. split; [reflexivity|]. intros f; destruct f; vm_compute; discriminate. Qed.
-
-(* ------------------------------------------------------------------ (5) S-C09b exactly: which histories are affected *)
-(* does some image hold a cached memory map whose file no longer covers it? *)
+(* ------------------------------------------------------------------ (4) S-C09b / S-C09d exactly: which histories are affected *)
+(* does some image hold a live memory map - cached, or the array it was built around - whose file no longer covers it? *)
 Definition unbacked_img (g : cfg) (fs : list (option content)) (oi : option image) : bool :=
   match oi with
-  | Some im => match i_cache im with
-               | CAlias p d => match alias_read g fs p d with RCrash => true | _ => false end
-               | _ => false
-               end
+  | Some im =>
+    match i_src im with
+    | SMap p d _ => match alias_read g fs p d with RCrash => true | _ => false end
+    | _ => false
+    end
+    || match i_cache im with
+       | CAlias p d => match alias_read g fs p d with RCrash => true | _ => false end
+       | _ => false
+       end
   | None => false
   end.
 Definition unbackedb (g : cfg) (w : world) : bool := existsb (unbacked_img g (w_fs w)) (w_imgs w).
 
-(* decidable predicate on (configuration, initial world, history): at some point of the run a live cached map
-   loses its backing (a save has made its file shorter than the map) *)
+(* decidable predicate on (configuration, initial world, history): at some step an unrecognised view of a map of
+   the target is saved (S-C09d), or a live memory map loses its backing (S-C09b: a save has made its file shorter
+   than the map) *)
 Fixpoint affected (g : cfg) (w : world) (ops : list op) : bool :=
   match ops with
   | [] => false
-  | o :: r => unbackedb g (fst (step g w o)) || affected g (fst (step g w o)) r
+  | o :: r => risky_op g w o || unbackedb g (fst (step g w o)) || affected g (fst (step g w o)) r
   end.
 
 Lemma backed_iff g w : backed g w <-> unbackedb g w = false.
@@ -537,68 +523,70 @@ Proof.
   split.
   - intros B. destruct (unbackedb g w) eqn:E; [|reflexivity]. exfalso.
     apply existsb_exists in E as (oi & Hin & Hu). destruct oi as [im|]; [|discriminate].
-    cbn [unbacked_img] in Hu. destruct (i_cache im) as [| |p d] eqn:Hc; try discriminate.
-    apply In_nth with (d := None) in Hin as (s & _ & Hs).
-    destruct (alias_read g (w_fs w) p d) eqn:Ea; try discriminate.
-    exact (B s im p d Hs Hc Ea).
-  - intros E s im p d Hi Hc Ea.
-    assert (existsb (unbacked_img g (w_fs w)) (w_imgs w) = true).
-    { apply existsb_exists. exists (Some im). split; [now apply (img_at_in w s)|].
-      cbn [unbacked_img]. now rewrite Hc, Ea. }
-    unfold unbackedb in E. congruence.
-Qed.
-
-(* from a world whose maps are all backed no operation crashes *)
-Lemma backed_step_no_crash g w o : g_fix g = true -> backed g w -> snd (step g w o) <> OCrash.
-Proof.
-  intros Hf B. destruct (is_write o) eqn:Hw; [now apply save_step_no_crash|].
-  unfold step. destruct (w_dead w); [discriminate|]. destruct o; try discriminate.
-  - unfold do_load. destruct (file_at w (fid g p)); [|discriminate]. destruct (_ <? _)%nat; discriminate.
-  - unfold do_fdata. destruct (img_at w s) as [im|] eqn:Hi; [|discriminate].
-    destruct (i_cache im) as [|v|p d] eqn:Hc.
-    + pose proof (denote_no_crash g (w_fs w) im). destruct (denote g (w_fs w) im); try discriminate; congruence.
-    + discriminate.
-    + pose proof (B s im p d Hi Hc). destruct (alias_read g (w_fs w) p d); try discriminate; congruence.
-  - destruct (img_at w s); discriminate.
-  - destruct (img_at w s); discriminate.
-  - destruct (img_at w s); discriminate.
-  - destruct (img_at w s); discriminate.
-  - destruct (img_at w s) as [im|]; [|discriminate]. destruct (_ <? _)%nat; discriminate.
-  - destruct (img_at w s) as [im|]; [|discriminate]. destruct (i_src im); [discriminate|].
-    pose proof (denote_no_crash g (w_fs w) im). destruct (denote g (w_fs w) im); try discriminate; congruence.
+    apply In_nth with (d := None) in Hin as (s & _ & Hs). destruct (B s im Hs) as [B1 B2].
+    cbn [unbacked_img] in Hu. apply orb_prop in Hu as [Hu|Hu].
+    + unfold src_backed in B1. destruct (i_src im) as [| |p d c]; try discriminate.
+      destruct (alias_read g (w_fs w) p d); try discriminate. now apply B1.
+    + destruct (i_cache im) as [| |p d] eqn:Hc; try discriminate.
+      destruct (alias_read g (w_fs w) p d) eqn:Ea; try discriminate. exact (B2 p d eq_refl Ea).
+  - intros E s im Hi.
+    assert (Hu : unbacked_img g (w_fs w) (Some im) = false).
+    { destruct (unbacked_img g (w_fs w) (Some im)) eqn:Hu; [|reflexivity].
+      assert (existsb (unbacked_img g (w_fs w)) (w_imgs w) = true)
+        by (apply existsb_exists; exists (Some im); split; [now apply (img_at_in w s)|exact Hu]).
+      unfold unbackedb in E. congruence. }
+    cbn [unbacked_img] in Hu. apply orb_false_elim in Hu as [H1 H2]. split.
+    + unfold src_backed. destruct (i_src im) as [| |p d c]; auto. intros Ea. rewrite Ea in H1. discriminate.
+    + intros p d Hc Ea. rewrite Hc, Ea in H2. discriminate.
 Qed.
 
 Lemma no_crash_unaffected g : g_fix g = true ->
   forall ops w, backed g w -> affected g w ops = false -> ~ In OCrash (snd (run g w ops)).
 Proof.
   intros Hf. induction ops as [|o r IH]; intros w B Ha; [simpl; tauto|].
-  cbn [affected] in Ha. apply orb_false_elim in Ha as [H1 H2].
+  cbn [affected] in Ha. apply orb_false_elim in Ha as [H12 H3]. apply orb_false_elim in H12 as [H1 H2].
   rewrite run_cons. cbn [snd]. intros [E|E].
-  - exact (backed_step_no_crash g w o Hf B E).
-  - apply backed_iff in H1. exact (IH _ H1 H2 E).
+  - exact (backed_step_no_crash g w o Hf B H1 E).
+  - apply backed_iff in H2. exact (IH _ H2 H3 E).
 Qed.
 
-(* the predicate is tight: the moment a live map loses its backing, reading that image kills the process *)
-Lemma step_not_dead g w o : g_fix g = true -> backed g w -> w_dead w = false -> w_dead (fst (step g w o)) = false.
+(* the predicate is tight: the moment a live map loses its backing, one more operation on that image - a read of
+   its data - kills the process *)
+Lemma step_dead g w o : snd (step g w o) <> OCrash -> w_dead w = false -> w_dead (fst (step g w o)) = false.
 Proof.
-  intros Hf B Hd. pose proof (backed_step_no_crash g w o Hf B) as Hn.
+  intros Hn Hd.
   assert (K : forall (x : world * out), (snd x = OCrash \/ w_dead (fst x) = false) -> snd x <> OCrash ->
               w_dead (fst x) = false) by (intros x [H|H] Hx; [contradiction|exact H]).
-  apply K; [|exact Hn]. clear K Hn. unfold step. rewrite Hd. destruct o.
-  - right; cbn [fst]. unfold do_load. destruct (file_at w (fid g p)); [|exact Hd]. destruct (_ <? _)%nat; exact Hd.
-  - unfold do_fdata. destruct (img_at w s) as [im|]; [|right; exact Hd].
+  apply K; [|exact Hn]. clear K Hn.
+  assert (SV : forall s t hd, snd (do_save g w s t hd) = OCrash \/ w_dead (fst (do_save g w s t hd)) = false).
+  { intros s t hd. unfold do_save. destruct (img_at w s) as [im0|]; [|right; exact Hd].
+    destruct (negb _); [right; exact Hd|]. destruct (out_dtype g _ _); [|right; exact Hd].
+    destruct (denote g (w_fs w) _); [|right; exact Hd|left; reflexivity].
+    destruct (writer_refuses g _ _); [right; exact Hd|].
+    destruct (_ && negb _); [destruct (_ <? _); [left; reflexivity|right; exact Hd]|right; exact Hd]. }
+  assert (FD : forall s, snd (do_fdata g w s) = OCrash \/ w_dead (fst (do_fdata g w s)) = false).
+  { intros s. unfold do_fdata. destruct (img_at w s) as [im|]; [|right; exact Hd].
     destruct (i_cache im); [destruct (denote g (w_fs w) im)|..]; try (right; exact Hd); try (left; reflexivity).
-    destruct (alias_read g (w_fs w) p d); try (right; exact Hd); left; reflexivity.
+    destruct (alias_read g (w_fs w) p d); try (right; exact Hd); left; reflexivity. }
+  unfold step. rewrite Hd. destruct o.
+  - right; cbn [fst]. unfold do_load. destruct (file_at w (fid g p)); [|exact Hd]. destruct (_ <? _)%nat; exact Hd.
+  - apply FD.
   - right; cbn [fst]. destruct (img_at w s); exact Hd.
   - right; cbn [fst]. destruct (img_at w s); exact Hd.
   - right; cbn [fst]. destruct (img_at w s); exact Hd.
   - right; cbn [fst]. destruct (img_at w s); exact Hd.
-  - destruct (do_save_cases g w s p None Hf) as [[e E]|(im0 & od & v & _ & _ & _ & _ & _ & E)]; rewrite E; right; exact Hd.
-  - destruct (do_save_cases g w s p (Some U1) Hf) as [[e E]|(im0 & od & v & _ & _ & _ & _ & _ & E)]; rewrite E; right; exact Hd.
-  - destruct (img_at w s) as [im|]; [|right; exact Hd]. destruct (fmt_eqb _ _); [|right; exact Hd].
-    destruct (do_save_cases g w s p None Hf) as [[e E]|(im0 & od & v & _ & _ & _ & _ & _ & E)]; rewrite E; right; exact Hd.
+  - apply SV.
+  - apply SV.
+  - destruct (img_at w s) as [im|]; [|right; exact Hd]. destruct (fmt_eqb _ _); [apply SV|right; exact Hd].
   - right; cbn [fst]. destruct (img_at w s); [|exact Hd]. destruct (_ <? _)%nat; exact Hd.
-  - destruct (img_at w s) as [im|]; [|right; exact Hd]. destruct (i_src im); [right; exact Hd|].
+  - unfold do_wrap. destruct (img_at w s) as [im|]; [|right; exact Hd]. destruct (negb _); [right; exact Hd|].
+    destruct how.
+    + destruct (denote g (w_fs w) im); [right; exact Hd|right; exact Hd|left; reflexivity].
+    + destruct (FD s) as [E|E]; destruct (do_fdata g w s) as [w1 x]; cbn [fst snd] in *.
+      * rewrite E. left; reflexivity.
+      * destruct x; try (right; exact E); left; reflexivity.
+    + destruct (denote g (w_fs w) im); [right; exact Hd|right; exact Hd|left; reflexivity].
+  - destruct (img_at w s) as [im|]; [|right; exact Hd]. destruct (i_src im); try (right; exact Hd).
     destruct (denote g (w_fs w) im); try (right; exact Hd); left; reflexivity.
   - destruct (img_at w s) as [im|]; [|right; exact Hd].
     destruct (denote g (w_fs w) im); try (right; exact Hd); left; reflexivity.
@@ -607,16 +595,26 @@ Proof.
 Qed.
 
 Lemma unbacked_read_crashes g w : w_dead w = false -> unbackedb g w = true ->
-  exists s, snd (step g w (Fdata s)) = OCrash.
+  exists s, snd (step g w (Fdata s)) = OCrash \/ snd (step g w (Wrap s s WAny)) = OCrash.
 Proof.
   intros Hd E. apply existsb_exists in E as (oi & Hin & Hu). destruct oi as [im|]; [|discriminate].
-  cbn [unbacked_img] in Hu. destruct (i_cache im) as [| |p d] eqn:Hc; try discriminate.
-  apply In_nth with (d := None) in Hin as (s & _ & Hs). exists s.
-  unfold step. rewrite Hd. unfold do_fdata, img_at. rewrite Hs, Hc.
-  destruct (alias_read g (w_fs w) p d); try discriminate. reflexivity.
+  apply In_nth with (d := None) in Hin as (s & Hlt & Hs). exists s.
+  cbn [unbacked_img] in Hu. apply orb_prop in Hu as [Hu|Hu].
+  - (* the array itself: building another image around it reads it *)
+    right. unfold step. rewrite Hd. unfold do_wrap, img_at. rewrite Hs.
+    replace (s <? length (w_imgs w))%nat with true by (symmetry; now apply Nat.ltb_lt). cbn [negb].
+    unfold denote. destruct (i_src im) as [| |p d c]; try discriminate.
+    destruct (alias_read g (w_fs w) p d); try discriminate. reflexivity.
+  - left. destruct (i_cache im) as [| |p d] eqn:Hc; try discriminate.
+    unfold step. rewrite Hd. unfold do_fdata, img_at. rewrite Hs, Hc.
+    destruct (alias_read g (w_fs w) p d); try discriminate. reflexivity.
 Qed.
 
-Lemma affected_is_real g w o : g_fix g = true -> backed g w -> w_dead w = false ->
+Lemma affected_is_real g w o : g_fix g = true -> backed g w -> risky_op g w o = false -> w_dead w = false ->
   unbackedb g (fst (step g w o)) = true ->
-  exists s, snd (step g (fst (step g w o)) (Fdata s)) = OCrash.
-Proof. intros Hf B Hd E. apply unbacked_read_crashes; [now apply step_not_dead|exact E]. Qed.
+  exists s, snd (step g (fst (step g w o)) (Fdata s)) = OCrash
+            \/ snd (step g (fst (step g w o)) (Wrap s s WAny)) = OCrash.
+Proof.
+  intros Hf B Hr Hd E. apply unbacked_read_crashes; [|exact E].
+  apply step_dead; [now apply backed_step_no_crash|exact Hd].
+Qed.
